@@ -165,7 +165,7 @@ def threaded_runs(ctx):
         return ctx._c18_threads
     runs = []
     ctx._c18_shape = []
-    max_runs = ctx.budget(60, 1500)
+    max_runs = ctx.budget(60, 1200)
     with S.pinned_tz(S.LOCAL_TZ):
         for ci, (spec, cap, scripts, bound) in enumerate(FIXED_CASES):
             b = bound if ctx.tier == "thorough" or ctx.escalated else min(bound, 2)
@@ -190,7 +190,7 @@ def threaded_runs(ctx):
             except S.ShapeChanged as ex:
                 ctx._c18_shape.append("%s: %s" % (spec, ex))
         rng = ctx.subrng("threads")
-        for i in range(ctx.budget(150, 3000)):
+        for i in range(ctx.budget(150, 2500)):
             spec, cap, scripts = gen_case(rng)
             seed = rng.randrange(1 << 30)
             rate = rng.choice([0.0, 0.05, 0.15])
